@@ -229,6 +229,50 @@ Theorem C19_decoded_paths_canonical : forall w datalen is hs p, w < 2 ^ 32 ->
 Proof. exact path_decode_canonical. Qed.
 Print Assumptions C19_decoded_paths_canonical.
 
+(** Histories.  Whatever sequence of operations (IncPath through Raw or through the embedded Base,
+    successful or failing; Reverse; pointers assigned directly within their field widths;
+    ToDecoded/ToRaw; SetInfoField/SetHopField) has been applied to a Raw object that came out of
+    DecodeFromBytes, the object is again one that DecodeFromBytes could have produced; hence all
+    the theorems above apply to it: Raw.Reverse twice restores it, and with pointers in range the
+    reversal is the mirror image and coincides with Decoded.Reverse. *)
+Definition run_raw (r : path) (ops : list op) : path := fold_left (fun p o => so_path (step true p o)) ops r.
+Definition run_dec (d : path) (ops : list op) : path := fold_left (fun p o => so_path (step false p o)) ops d.
+
+Theorem C19_reverse_after_any_history : forall r ops, canonical r -> Forall op_ok ops ->
+  let r' := run_raw r ops in
+  canonical r' /\
+  (num_inf (pbase r') <> 0 -> exists q, reverse_raw r' = Ok q /\ reverse_raw q = Ok r') /\
+  (num_inf (pbase r') <> 0 -> ptrs_in_range r' = true ->
+   reverse_raw r' = Ok (spec_reverse r') /\ reverse_decoded r' = Ok (spec_reverse r')).
+Proof.
+  intros r ops C OK. cbv zeta.
+  assert (C' : canonical (run_raw r ops)).
+  { unfold run_raw. revert r C. induction OK as [|o ops O1 OK IH]; intros r C; [exact C|].
+    cbn [fold_left]. apply IH. now apply step_canonical. }
+  split; [exact C'|]. split.
+  - intros NZ. now apply reverse_raw_invol.
+  - intros NZ PR. destruct (reverse_raw_canonical _ C' NZ) as (R & _). rewrite R, (rr_reversed _ C' PR).
+    split; [reflexivity|]. pose proof C' as (W & _ & SH & EB).
+    apply reverse_decoded_spec; [exact W | | exact PR].
+    rewrite EB. cbn [decoded_base num_hops]. apply shape_ok_prop in SH. lia.
+Qed.
+Print Assumptions C19_reverse_after_any_history.
+
+(** The step-by-step oracle of the sequence cases ([seq_oracle]: after every Reverse the mirror image
+    of what was seen before, IncPath to the next hop and segment or failing at the last hop, lossless
+    conversion) holds on the model along every sequence, for the Raw and for the Decoded object. *)
+Theorem C19_sequence_oracle_holds_on_model : forall w datalen is hs d ops, w < 2 ^ 32 ->
+  path_decode w datalen is hs = Some d ->
+  num_inf (pbase d) <= N.of_nat (length is) -> num_hops (pbase d) <= N.of_nat (length hs) ->
+  Forall op_ok ops ->
+  seq_agree d d ops (seq_model d d ops) = true /\ seq_oracle d d ops (seq_model d d ops) = true.
+Proof.
+  intros w datalen is hs d ops Hw D L1 L2 OK.
+  pose proof (path_decode_canonical w datalen is hs d Hw D L1 L2) as C.
+  exact (seq_model_ok ops d d C (canonical_sc d C) OK).
+Qed.
+Print Assumptions C19_sequence_oracle_holds_on_model.
+
 (** The oracles evaluated by [Meta.check] on the implementation's observations hold on the model. *)
 Theorem C19_oracle_holds_on_model :
   (forall w, w < 2 ^ 32 -> word_oracle w (word_obs w) = true) /\
